@@ -227,6 +227,21 @@ template <unsigned short N, class E> void c_t2tot2(E& e) {
   const tensor<N, T> Xt = transpose(X);
   ensure_vec_eq(e, "transpose_derivative:X=X^T", tdx, Xt);
 }
+// fromRotationMatrix: the fourth-order tensor acting as the change of basis (bilinear in r: stated for every matrix r of the right shape)
+template <unsigned short N, class E> void c_from_rotation_matrix(E& e) {
+  using T = typename E::real;
+  tmatrix<3u, 3u, T> r;
+  for (unsigned short i = 0; i < 3; ++i) for (unsigned short j = 0; j < 3; ++j) r(i, j) = T(i == j ? 1 : 0);
+  const unsigned short n = N == 3 ? 3 : 2;
+  for (unsigned short i = 0; i < n; ++i) for (unsigned short j = 0; j < n; ++j) r(i, j) = e.var("r" + std::to_string(i) + std::to_string(j));
+  const auto A = sym_tensor<N>(e, "A");
+  const auto s = sym_stensor<N>(e, "s");
+  const tensor<N, T> RA = t2tot2<N, T>::fromRotationMatrix(r) * A;
+  ensure_vec_eq(e, "t2tot2::fromRotationMatrix(r)*A = change_basis(A,r)", RA, tensor<N, T>(change_basis(A, r)));
+  ensure_mat_eq(e, "T(t2tot2::fromRotationMatrix(r)*A) = r^T.T(A).r", Tm<N, T>(RA), mul(mul(tr(of_tmatrix(r)), Tm<N, T>(A)), of_tmatrix(r)));
+  const stensor<N, T> Rs = st2tost2<N, T>::fromRotationMatrix(r) * s;
+  ensure_mat_eq(e, "M(st2tost2::fromRotationMatrix(r)*s) = r^T.M(s).r", M<N, T>(e, Rs), mul(mul(tr(of_tmatrix(r)), M<N, T>(e, s)), of_tmatrix(r)));
+}
 #define C02_N(N)                                                                   \
   VSYM_CONTRACT("tensor" #N "/algebra", (c_tensor_algebra<N##u>))                   \
   VSYM_CONTRACT("tensor" #N "/invert", (c_tensor_invert<N##u>))                     \
@@ -237,6 +252,8 @@ C02_N(1)
 C02_N(2)
 C02_N(3)
 VSYM_CONTRACT("tensor3/change_basis", c_tensor_change_basis)
+VSYM_CONTRACT("fromRotationMatrix/2D", (c_from_rotation_matrix<2u>))
+VSYM_CONTRACT("fromRotationMatrix/3D", (c_from_rotation_matrix<3u>))
 VSYM_CONTRACT_B("st2tost2_1/det", (c_st2tost2_det<1u>), 4000)
 VSYM_CONTRACT_B("st2tost2_2/det", (c_st2tost2_det<2u>), 4000)
 VSYM_CONTRACT("st2tost2_1/push_forward", (c_st2tost2_push_forward<1u>))
